@@ -16,7 +16,7 @@ func init() {
 		ID:    "C08",
 		Level: "exploration",
 		Rule: "cases: first a sample of the repository's own manifest directories (3 repetitions x all outputs + the binary), then one generated resource set per case (NetworkPolicy worlds with many shared selectors, ANP/BANP worlds, Ingress/Route worlds, a large profile with up to 14 workloads and 10 policies) written in V layout variants (canonical file; documents shuffled into one file; one file per document with random names; random nested grouping; NetworkPolicy rules and peers permuted) and analysed R times per variant in fresh analyzers, for list txt/json/csv/md/dot x exposure off/on and diff txt/csv/md/dot against a second world; a slice is also run through the binary (fresh process, fresh hash seed); " +
-			"plus a light stream of many more resource sets (list txt/json, exposure off/on, two layouts, three fresh analyses each); oracle: byte equality of every output with the first one of its kind; the number of distinct internal iteration orders actually seen (order of the returned []Peer slice) is measured per input; " +
+			"plus a light stream of many more resource sets (list txt, and with exposure txt/json and one of dot/md/csv in rotation, two layouts, three fresh analyses each; 30% with an isolated namespace whose connection-less workloads and representative peers must be grouped the same way every time); oracle: byte equality of every output with the first one of its kind; the number of distinct internal iteration orders actually seen (order of the returned []Peer slice) is measured per input; " +
 			"non-trivial = at least 3 workload peers and a non-empty report (the number of inputs for which more than one internal iteration order was actually observed is reported as an event, not demanded: an implementation that sorts its peers has only one); distinct = world hash",
 		Assumptions:       []string{"values inside one selector and ports inside one rule are not permuted (the statement names documents, files, rules and peers)", "each semantic selector has one spelling per world except in the committed witness of finding C08-selector-spelling"},
 		NumCases:          func(tier string, _ int64) int { return tierN(tier, 76+1500, 470+30000) },
@@ -88,6 +88,9 @@ func c08World(g *rng.R, fam int) (*world.World, string) {
 		w := world.GenNPWorld(g, cfg)
 		if g.P(0.5) {
 			world.AddCanonStress(g, w)
+		}
+		if g.P(0.3) {
+			world.AddIsolatedNamespace(g, w)
 		}
 		return w, "np"
 	case 1:
@@ -352,6 +355,7 @@ func runC08Light(c *run.Ctx) {
 		world.AddCanonStress(g, w)
 	}
 	world.UnifySpellings(w)
+	r.Feat(w.Features...)
 	r.Feat("light_" + fam)
 	r.Hash = "light/" + w.Hash()
 	r.Ev("light_inputs", 1)
@@ -363,11 +367,13 @@ func runC08Light(c *run.Ctx) {
 	first := map[string]string{}
 	nonEmpty := false
 	orders := map[string]bool{}
+	extra := []string{"dot", "md", "csv", "dot"}[c.Idx%4] // one more exposure formatter per case, in rotation
+	r.Feat("light_exposure_" + extra)
 	for rep := 0; rep < 3; rep++ {
 		for _, dir := range dirs {
 			for _, exp := range []bool{false, true} {
-				for _, f := range []string{"txt", "json"} {
-					if !exp && f == "json" {
+				for _, f := range []string{"txt", "json", extra} {
+					if !exp && f != "txt" {
 						continue
 					}
 					res := observe.List(dir, observe.ListOpts{Format: f, Exposure: exp})
